@@ -1,8 +1,8 @@
 (* C02 - the compiled model says exactly what the specification text declares. Statements only; proofs by `exact`.
    The model is Front/Denote.v (the listener's algorithm + postProcess); see Front/DenoteProps.v. *)
-From Coq Require Import String List ZArith Bool.
+From Coq Require Import String List ZArith Bool Permutation.
 Import ListNotations.
-Require Import Verif.Front.Ast Verif.Front.Denote Verif.Front.DenoteProps Verif.Front.Canon Verif.Front.CanonProps Verif.Gen.PrimTables.
+Require Import Verif.Front.Ast Verif.Front.Denote Verif.Front.DenoteProps Verif.Front.Canon Verif.Front.CanonProps Verif.Front.CollectProps Verif.Front.OrderProps Verif.Gen.PrimTables Verif.Gen.ListenerState.
 Local Open Scope string_scope.
 Local Open Scope list_scope.
 
@@ -123,7 +123,8 @@ Print Assumptions C02_listen_is_canon_on_wf_sub.
 
 (* ... and through postProcess, when nothing is mixed in and no reference is re-scoped (both decidable on canon s) *)
 Theorem C02_denote_is_canon_on_wf_sub : forall s,
-  wf_sub s = true -> no_mixins (canon s) = true -> no_rescope (canon s) = true -> denote s = Some (canon s).
+  wf_sub s = true -> no_mixins (canon s) = true -> no_rescope (canon s) = true -> no_collector (canon s) = true ->
+  denote s = Some (canon s).
 Proof. exact denote_canon. Qed.
 Print Assumptions C02_denote_is_canon_on_wf_sub.
 
@@ -131,3 +132,111 @@ Print Assumptions C02_denote_is_canon_on_wf_sub.
 Theorem C02_blocks_group_by_application : forall bs, fold_left tstep bs [] = grouped bs.
 Proof. exact fold_tstep_grouped. Qed.
 Print Assumptions C02_blocks_group_by_application.
+
+(* ---- `.. * <- *:` blocks (postProcess: collectorPubSubCalls / applyAttributes). For an entry `tg <- ep [cat]` and ANY
+   statement forest: the calls of the result are the calls of the input, one for one and in order, with the entry's
+   attributes merged into every call of that target and endpoint (any depth, any number of repetitions, every
+   one-of choice) and into no other; with call attributes blanked the forests are equal; the accumulated boolean
+   says whether such a call exists. *)
+Theorem C02_collector_applies_to_all_matches : forall cat tg ep ss ss' b,
+  apply_list cat tg ep ss false = Some (ss', b) ->
+  calls_of ss' = map (retag cat tg ep) (calls_of ss) /\
+  map erase ss' = map erase ss /\
+  b = existsb (is_match tg ep) (calls_of ss).
+Proof. exact collector_applies_to_all_matches. Qed.
+Print Assumptions C02_collector_applies_to_all_matches.
+
+(* ... and it always returns on the statement kinds the listener produces *)
+Theorem C02_collector_never_panics : forall cat tg ep ss acc,
+  forallb no_bad ss = true -> exists x, apply_list cat tg ep ss acc = Some x.
+Proof. exact collector_never_panics. Qed.
+Print Assumptions C02_collector_never_panics.
+
+(* one call entry over a whole application: exactly the matching calls of the endpoints other than the collector *)
+Theorem C02_collector_entry_effect : forall a cat tg ep args a' b,
+  collect_entry a (SCall cat tg ep args) = Some (a', b) ->
+  a' = set_eps a (eps_effect cat tg ep (a_eps a)) /\ b = existsb (is_match tg ep) (eps_calls (a_eps a)).
+Proof. exact collector_entry_effect. Qed.
+Print Assumptions C02_collector_entry_effect.
+
+(* one endpoint entry: its attributes are merged into that endpoint's, nothing else moves *)
+Theorem C02_collector_action_effect : forall a cat n e,
+  aget n (a_eps a) = Some e ->
+  exists a', collect_entry a (SAction cat n) = Some (a', true) /\
+    aget n (a_eps a') = Some (set_eattrs e (merge_attrs cat (e_attrs e))) /\
+    (forall n', n' <> n -> aget n' (a_eps a') = aget n' (a_eps a)) /\
+    a_types a' = a_types a /\ a_attrs a' = a_attrs a /\ a_mixins a' = a_mixins a.
+Proof. exact collector_action_effect. Qed.
+Print Assumptions C02_collector_action_effect.
+
+(* ---- the collector pass of the CURRENT source has the shape the model transliterates, and mergeAttrs stores copies
+   (Gen/ListenerState.v is regenerated on every run) *)
+Theorem C02_collector_shape_current :
+  apply_recurse_arms = ["Cond"; "Group"; "Loop"; "LoopN"; "Foreach"] /\ apply_leaf_arms = ["Action"; "Ret"] /\
+  apply_alt_arm = true /\ apply_call_arm = true /\ apply_default_panics = true /\ apply_accumulates_eagerly = true /\
+  collector_skips_self = true /\ collector_accumulates_eagerly = true /\ collector_action_merges = true.
+Proof. exact collector_shape_current. Qed.
+Print Assumptions C02_collector_shape_current.
+
+Theorem C02_merge_attrs_by_value_current : merge_copies = true.
+Proof. exact merge_attrs_by_value_current. Qed.
+Print Assumptions C02_merge_attrs_by_value_current.
+
+(* ---- listener state of the CURRENT source: what a declaration sets up it takes down, nothing is left pointing into
+   an earlier declaration (this is what allows the model to thread no listener state between members) *)
+Theorem C02_exit_detaches_field_map :
+  forallb (fun h => detached (last (how h "typemap") "") && match how h "fieldname" with ["fresh"] => true | _ => false end)
+          ["ExitTable"; "ExitUnion"; "ExitParams"; "ExitAlias"; "ExitView"] = true.
+Proof. exact exit_detaches_field_map. Qed.
+Print Assumptions C02_exit_detaches_field_map.
+
+Theorem C02_enter_initialises_field_map :
+  forallb (fun h => match how h "typemap" with x :: _ => String.eqb x "fresh" || String.eqb x "set" | [] => false end)
+          ["EnterTable"; "EnterUnion"; "EnterParams"; "EnterAlias"; "EnterView"; "EnterApp_decl"] = true /\
+  how "EnterParams" "fieldname" = ["fresh"] /\ how "EnterAlias" "fieldname" = ["set"] /\ how "EnterView" "fieldname" = ["fresh"] /\
+  how "EnterMethod_def" "method_urlparams" = ["fresh"].
+Proof. exact enter_initialises_field_map. Qed.
+Print Assumptions C02_enter_initialises_field_map.
+
+Theorem C02_type_path_balanced :
+  forallb (fun p => match how (fst p) "currentTypePath", how (snd p) "currentTypePath" with ["push"], ["pop"] => true | _, _ => false end)
+          [("EnterTable", "ExitTable"); ("EnterUnion", "ExitUnion"); ("EnterEnum", "ExitEnum"); ("EnterAlias", "ExitAlias")] = true.
+Proof. exact type_path_balanced. Qed.
+Print Assumptions C02_type_path_balanced.
+
+Theorem C02_scopes_balanced :
+  forallb (fun p => match how (fst p) "scope", how (snd p) "scope" with ["push"], ["pop"] => true | _, _ => false end)
+          [("EnterTable", "ExitTable"); ("EnterUnion", "ExitUnion"); ("EnterEnum", "ExitEnum"); ("EnterAlias", "ExitAlias");
+           ("EnterView", "ExitView"); ("EnterSimple_endpoint", "ExitSimple_endpoint"); ("EnterMethod_def", "ExitMethod_def");
+           ("EnterRest_endpoint", "ExitRest_endpoint"); ("EnterEvent", "ExitEvent"); ("EnterSubscribe", "ExitSubscribe");
+           ("EnterCollector", "ExitCollector"); ("EnterIf_stmt", "ExitIf_stmt"); ("EnterElse_stmt", "ExitElse_stmt");
+           ("EnterGroup_stmt", "ExitGroup_stmt"); ("EnterOne_of_cases", "ExitOne_of_cases"); ("EnterOne_of_stmt", "ExitOne_of_stmt");
+           ("EnterApp_decl", "ExitApp_decl"); ("EnterField_type", "ExitField_type")] = true /\
+  how "EnterFor_stmt" "scope" = ["push"; "push"; "push"; "push"] /\ how "ExitFor_stmt" "scope" = ["pop"].
+Proof. exact scopes_balanced. Qed.
+Print Assumptions C02_scopes_balanced.
+
+Theorem C02_rest_stacks_restored :
+  how "ExitHttp_path" "urlPrefixes" = ["push"] /\ how "ExitRest_endpoint" "urlPrefixes" = ["pop"] /\
+  how "EnterRest_endpoint" "rest_urlparams_len" = ["push"] /\ how "ExitRest_endpoint" "rest_urlparams_len" = ["pop"] /\
+  how "ExitRest_endpoint" "rest_urlparams" = ["pop"] /\
+  how "EnterRest_endpoint" "rest_attrs" = ["push"; "push"] /\ how "ExitRest_endpoint" "rest_attrs" = ["pop"] /\
+  forallb (fun h => match how h "endpointName" with ["empty"] => true | _ => false end)
+          ["ExitSimple_endpoint"; "ExitMethod_def"; "ExitEvent"; "ExitSubscribe"] = true.
+Proof. exact rest_stacks_restored. Qed.
+Print Assumptions C02_rest_stacks_restored.
+
+(* ---- the members of an application block may be written in any order (annotations keep their order among
+   themselves, mixins theirs): same types and endpoints under the same names, same attributes, same mixins *)
+Theorem C02_member_order_irrelevant : forall ap a ms ms',
+  Permutation ms ms' ->
+  flat_map mem_annos ms = flat_map mem_annos ms' -> flat_map mem_mixins ms = flat_map mem_mixins ms' ->
+  forallb sub_member ms = true -> forallb member_ok ms = true ->
+  NoDup (keys (a_types a) ++ keys (types_of_members ap ms)) ->
+  NoDup (keys (a_eps a) ++ keys (eps_of_members ap ms)) ->
+  exists a1 a2,
+    fold_opt (amember ap) ms a = Some a1 /\ fold_opt (amember ap) ms' a = Some a2 /\
+    same_map (a_types a1) (a_types a2) /\ same_map (a_eps a1) (a_eps a2) /\
+    a_attrs a1 = a_attrs a2 /\ a_mixins a1 = a_mixins a2 /\ a_parts a1 = a_parts a2 /\ a_long a1 = a_long a2.
+Proof. exact member_order_irrelevant. Qed.
+Print Assumptions C02_member_order_irrelevant.
